@@ -22,6 +22,30 @@ def run(ctx):
                            replay_cmd="./check C04 --tier %s" % ctx.tier), found_input=False)
     ctx.cov["static_cost_paths_checked"] = r["summary"].get("static_cost_paths", 0)
     ctx.cov["static_failures"] = len(cf)
+    # nested Starknet calls: self-checking gas tests (corpus/C04/gasproj) run by the test runner of the tree under test -
+    # between two readings of the gas counter an inner contract / library call executes n loop iterations and then
+    # succeeds or FAILS; the counter must drop by at least 100 gas per executed step either way
+    import os
+    ok_sn, _ = vlib.cargo_build(ctx, "h04sn")
+    if not ok_sn:
+        ctx.violation("harness h04sn does not build against the tree under test",
+                      {"theorem_or_correspondence": "nested-call gas leg (harness/h04sn)"}, found_input=False)
+    else:
+        proj = os.path.join(vlib.ROOT, "corpus", "C04", "gasproj")
+        rc, o = vlib.run([vlib.harness_bin("h04sn"), proj], timeout=1200, env=vlib.env_offline())
+        tests = [l for l in o.splitlines() if l.startswith("test ") and " ... " in l]
+        ctx.cov["nested_call_gas_tests"] = len(tests)
+        ctx.cov["nested_call_gas_tests_failed"] = len([l for l in tests if " ... fail" in l])
+        ctx.log("h04sn: %d nested-call gas tests, rc=%d" % (len(tests), rc))
+        if rc == 1:
+            fails = [l for l in o.splitlines() if " - Panicked" in l or " ... fail" in l]
+            ctx.violation("gas charged does not cover the steps of an inner Starknet call: " + "; ".join(fails)[:600],
+                          {"project": proj, "output": o[-3000:], "replay_cmd": "harness/target/debug/h04sn corpus/C04/gasproj"},
+                          found_input=True)
+        elif rc != 0 or not tests:
+            ctx.violation("the nested-call gas project no longer compiles or runs with the tree under test",
+                          {"theorem_or_correspondence": "nested-call gas leg (harness/h04sn)", "output": o[-3000:]},
+                          found_input=False)
     # run-time leg: the property's own formula on real VM runs of corpus Cairo programs (both solvers)
     rres = rt.run_runtime(ctx)
     if not rres["ok"]:
